@@ -11,7 +11,7 @@ PLANS = {
         "budget_s": {"quick": 60, "thorough": 600},
         "rule": ("scenario = (direction, frame body length, composition of the frame into raw recv/send "
                  "chunk sizes, optional fault {FIN,RST,timeout,EPIPE,send==0} at a byte position); directed set: "
-                 "all compositions of the first 6 bytes, first chunk 1..30, boundary lengths x chunk policies, "
+                 "all compositions of the first 8 bytes (11 in thorough), first chunk 1..30, boundary lengths x chunk policies, "
                  "every fault kind after every byte of small frames; plus seeded random scenarios. A run is "
                  "non-trivial when the C12 oracle was evaluated; distinct = distinct (direction, trigger class, "
                  "fault/no fault, frame-size class) shapes"),
